@@ -34,6 +34,7 @@ def parseOp : List String → Option Op
   | ["dc", a] => do pure (.deleteChar (← decInt a))
   | ["si", d, a] => do pure (.selfInsert (← decStr d) (← decInt a))
   | ["tc"] => some .transposeChars
+  | ["setdoc", t, c] => do pure (.setDoc (← decStr t) (← decInt c))
   | _ => none
 
 def stepLine (b : Buf) (toks : List String) : Buf × String :=
@@ -41,6 +42,12 @@ def stepLine (b : Buf) (toks : List String) : Buf × String :=
   | ["init", t, c] =>
     match decStr t, decNat c with
     | some t, some c => ({ text := t, cur := c }, s!"{encStr t} {c} s:")
+    | _, _ => (b, "bad-op")
+  | ["jsl", o, sp] =>
+    match decNat o, decStr sp with
+    | some o, some sp =>
+      let b' := joinSelectedLines Gen.isLineBreak b o sp
+      (b', s!"{encStr b'.text} {b'.cur} s:")
     | _, _ => (b, "bad-op")
   | [w, n] =>
     let f? : Option (Text → Text) :=
